@@ -42,11 +42,12 @@ def make_procs(kind, fail_at, fail_shutdown=False, always=False):
                 k = self.k
                 self.k += 1
                 if always or k == fail_at:
-                    raise Boom(f"processor failed at event {k}")
+                    # (every third failure carries no message at all, like queue.Full or a bare `raise ValueError`)
+                    raise Boom(f"processor failed at event {k}") if k % 3 else Boom()
 
             def shutdown(self):
                 if fail_shutdown:
-                    raise Boom("processor failed at shutdown")
+                    raise Boom()
     else:
         class Failing(AsyncEventProcessor):
             def __init__(self):
@@ -57,7 +58,7 @@ def make_procs(kind, fail_at, fail_shutdown=False, always=False):
                 self.k += 1
                 await asyncio.sleep(0)
                 if always or k == fail_at:
-                    raise Boom(f"async processor failed at event {k}")
+                    raise Boom(f"async processor failed at event {k}") if k % 3 else Boom()
 
             async def shutdown_async(self):
                 await asyncio.sleep(0)
